@@ -38,13 +38,19 @@ type monitoredPusher struct {
 	context.Context
 	*actions.HttpPushStreamer
 	cancel func()
+	// endpoint is what the pusher was started with
+	endpoint string
 }
 
-func monitorPusher(ctx context.Context, pusher *actions.HttpPushStreamer) monitoredPusher {
+func monitorPusher(
+	ctx context.Context,
+	pusher *actions.HttpPushStreamer,
+	endpoint string,
+) monitoredPusher {
 	ctx, cancel := context.WithCancel(ctx)
 	eg, egCtx := errgroup.WithContext(ctx)
 	eg.Go(func() error { return pusher.Go(egCtx) })
-	return monitoredPusher{eg, egCtx, pusher, cancel}
+	return monitoredPusher{eg, egCtx, pusher, cancel, endpoint}
 }
 
 func waitPusherMonitors(
@@ -199,12 +205,17 @@ func (s *httpPusher) startPushersOnce(ctx context.Context) error {
 		}
 
 		for _, sub := range pushSubs {
-			curSet[sub.ID] = struct{}{}
-			if _, ok := s.pushers[sub.ID]; !ok {
+			if mp, ok := s.pushers[sub.ID]; !ok {
 				// need to start a new pusher
 				p := actions.NewHttpPusher(sub.Name, sub.ID, *sub.PushEndpoint, nil, s.client)
-				s.pushers[sub.ID] = monitorPusher(ctx, p)
+				s.pushers[sub.ID] = monitorPusher(ctx, p, *sub.PushEndpoint)
+			} else if mp.endpoint != *sub.PushEndpoint {
+				// the endpoint was changed: the running pusher is bound to the old
+				// one. leave it out of the current set so that it is stopped below;
+				// once it has ended, the next round starts one for the new endpoint
+				continue
 			}
+			curSet[sub.ID] = struct{}{}
 		}
 		return nil
 	})
